@@ -103,7 +103,7 @@ def count_nodes(ps):
 def main():
     R = vf.Report(PID)
     proved = R.proof_step()
-    n = 12000 if R.thorough else 700
+    n = 150000 if R.thorough else 700
     progs = catalogue()
     ncat = len(progs)
     for _ in range(n):
